@@ -88,6 +88,7 @@ inline void check_entry(ProgramSite const& s, std::uint64_t idx, Outcome& o, std
         mpz_class m = abs(want.get_num());
         if (mpz_popcount(m.get_mpz_t()) == 1) cause = "negative-power-of-two/";
     }
+    o.region = cause;
     if (!ok) {
         o.fclass = cause + o.fclass;
         return;
